@@ -159,6 +159,10 @@ def run(chk, prop, theorem_files, knob_sets, n_quick, n_thorough, oracle_keys, n
                     scid = msg[1:msg.index("]")]
                     sc = next(s for s in obs["scenarios"] if s["id"] == scid)
                     kind, fid = classify(p, sc, key, msg)
+                if kind == "known" and r["diffs"]:
+                    # a recorded finding explains a failure only where the code still behaves as the model of the
+                    # unchanged tree says; where it deviates from the model, the failure is a new one
+                    kind, fid = "new", None
                 if kind == "known":
                     known_hits[fid] += 1
                 else:
@@ -213,6 +217,8 @@ def run(chk, prop, theorem_files, knob_sets, n_quick, n_thorough, oracle_keys, n
                         scid = msg[1:msg.index("]")]
                         sc = next(s for s in obs["scenarios"] if s["id"] == scid)
                         kind, fid = classify(r["ast"], sc, key, msg)
+                    if kind == "known" and r["diffs"]:
+                        kind, fid = "new", None
                     if kind != "known":
                         found.append((f"{key}: {msg}", {"stream": "project-search", "ast": r["ast"], "text": r["text"], "oracle": msg}))
     return conclude(chk, dis, lambda: found)
